@@ -130,3 +130,195 @@ theorem mapFind_nil {V : Type} (k : Image) : mapFind k ([] : List (Image × V)) 
   rw [mapFind]
 
 end SockModel.Addr
+
+/-! ### order, equivalence, injectivity, map insertion
+
+The proofs of the C13 property theorems (`Props/C13.lean` re-states every one of them under its own name);
+they live here because `Spec/C13.lean` (`model_satisfies_spec`) needs them too. -/
+namespace SockModel.Addr.Lem
+
+theorem lt_irrefl (a : Image) : lt a a = false := by
+  simp [lt, ltBytes_irrefl]
+
+theorem lt_trans (a b c : Image) (hab : lt a b = true) (hbc : lt b c = true) : lt a c = true := by
+  unfold lt at *
+  by_cases h1 : a.length < b.length
+  · by_cases h2 : b.length < c.length
+    · have : a.length < c.length := by omega
+      simp [this]
+    · by_cases h3 : c.length < b.length
+      · simp [h2, h3] at hbc
+      · have : a.length < c.length := by omega
+        simp [this]
+  · by_cases h1' : b.length < a.length
+    · simp [h1, h1'] at hab
+    · simp only [h1, h1', if_false] at hab
+      by_cases h2 : b.length < c.length
+      · have : a.length < c.length := by omega
+        simp [this]
+      · by_cases h3 : c.length < b.length
+        · simp [h2, h3] at hbc
+        · simp only [h2, h3, if_false] at hbc
+          have e1 : a.length = b.length := by omega
+          have e2 : b.length = c.length := by omega
+          have n1 : ¬ a.length < c.length := by omega
+          have n2 : ¬ c.length < a.length := by omega
+          simp only [n1, n2, if_false]
+          exact ltBytes_trans a b c e1 e2 hab hbc
+
+theorem lt_asymm (a b : Image) (h : lt a b = true) : lt b a = false := by
+  unfold lt at *
+  by_cases h1 : a.length < b.length
+  · have n : ¬ b.length < a.length := by omega
+    simp [n, h1]
+  · by_cases h2 : b.length < a.length
+    · simp [h1, h2] at h
+    · simp only [h1, h2, if_false] at h ⊢
+      exact ltBytes_asymm a b h
+
+theorem lt_total (a b : Image) : lt a b = true ∨ a = b ∨ lt b a = true := by
+  unfold lt
+  by_cases h1 : a.length < b.length
+  · simp [h1]
+  · by_cases h2 : b.length < a.length
+    · simp [h1, h2]
+    · simp only [h1, h2, if_false]
+      exact ltBytes_total a b (by omega)
+
+theorem eq_iff_not_lt_not_gt (a b : Image) : eq a b = true ↔ (lt a b = false ∧ lt b a = false) := by
+  rw [eq_iff]
+  constructor
+  · intro h; subst h; exact ⟨lt_irrefl a, lt_irrefl a⟩
+  · intro ⟨h1, h2⟩
+    rcases lt_total a b with h | h | h
+    · rw [h1] at h; cases h
+    · exact h
+    · rw [h2] at h; cases h
+
+theorem encode4_injective (ip1 ip2 : List UInt8) (p1 p2 : Nat)
+    (h1 : ip1.length = 4) (h2 : ip2.length = 4) (hp1 : p1 < 65536) (hp2 : p2 < 65536) :
+    eq (encode4 ip1 p1) (encode4 ip2 p2) = true ↔ (ip1 = ip2 ∧ p1 = p2) := by
+  rw [eq_iff]
+  constructor
+  · intro h
+    unfold encode4 at h
+    have h' : be16 p1 ++ (ip1 ++ List.replicate 8 0) = be16 p2 ++ (ip2 ++ List.replicate 8 0) := by
+      simpa using h
+    have ⟨hb, hr⟩ := List.append_inj h' (by simp [be16])
+    have ⟨hi, _⟩ := List.append_inj hr (by omega)
+    exact ⟨hi, be16_inj hp1 hp2 hb⟩
+  · intro ⟨hi, hp⟩; subst hi; subst hp; rfl
+
+theorem encode6_injective (ip1 ip2 : List UInt8) (p1 p2 f1 f2 s1 s2 : Nat)
+    (h1 : ip1.length = 16) (h2 : ip2.length = 16) (hp1 : p1 < 65536) (hp2 : p2 < 65536)
+    (hf1 : f1 < 4294967296) (hf2 : f2 < 4294967296) (hs1 : s1 < 4294967296) (hs2 : s2 < 4294967296) :
+    eq (encode6 ip1 p1 f1 s1) (encode6 ip2 p2 f2 s2) = true ↔ (ip1 = ip2 ∧ p1 = p2 ∧ f1 = f2 ∧ s1 = s2) := by
+  rw [eq_iff]
+  constructor
+  · intro h
+    unfold encode6 at h
+    have h' : be16 p1 ++ (be32 f1 ++ (ip1 ++ le32 s1)) = be16 p2 ++ (be32 f2 ++ (ip2 ++ le32 s2)) := by
+      simpa using h
+    have ⟨hb, hr⟩ := List.append_inj h' (by simp [be16])
+    have ⟨hf, hr2⟩ := List.append_inj hr (by simp [be32])
+    have ⟨hi, hs⟩ := List.append_inj hr2 (by omega)
+    exact ⟨hi, be16_inj hp1 hp2 hb, be32_inj hf1 hf2 hf, le32_inj hs1 hs2 hs⟩
+  · intro ⟨hi, hp, hf, hs⟩; subst hi; subst hp; subst hf; subst hs; rfl
+
+theorem encode_injective (f g : Fields) (hf : f.wf) (hg : g.wf) :
+    eq (encode f) (encode g) = true ↔ f = g := by
+  obtain ⟨fv6, fip, fport, fflow, fscope⟩ := f
+  obtain ⟨gv6, gip, gport, gflow, gscope⟩ := g
+  simp only [Fields.wf] at hf hg
+  cases fv6 <;> cases gv6
+  · -- v4 / v4
+    simp only [Bool.false_eq_true, if_false] at hf hg
+    simp only [encode, Bool.false_eq_true, if_false]
+    rw [encode4_injective fip gip fport gport hf.2.2.2.1 hg.2.2.2.1 hf.1 hg.1]
+    constructor
+    · intro ⟨a, b⟩
+      simp [a, b, hf.2.2.2.2.1, hf.2.2.2.2.2, hg.2.2.2.2.1, hg.2.2.2.2.2]
+    · intro h; cases h; exact ⟨rfl, rfl⟩
+  · -- v4 / v6: lengths differ
+    simp only [Bool.false_eq_true, if_false, if_true] at hf hg
+    simp only [encode, Bool.false_eq_true, if_false, if_true]
+    constructor
+    · intro h
+      have := congrArg List.length ((eq_iff _ _).mp h)
+      rw [length_encode4 _ _ hf.2.2.2.1, length_encode6 _ _ _ _ hg.2.2.2] at this
+      cases this
+    · intro h; cases h
+  · simp only [Bool.false_eq_true, if_false, if_true] at hf hg
+    simp only [encode, Bool.false_eq_true, if_false, if_true]
+    constructor
+    · intro h
+      have := congrArg List.length ((eq_iff _ _).mp h)
+      rw [length_encode4 _ _ hg.2.2.2.1, length_encode6 _ _ _ _ hf.2.2.2] at this
+      cases this
+    · intro h; cases h
+  · simp only [if_true] at hf hg
+    simp only [encode, if_true]
+    rw [encode6_injective fip gip fport gport fflow gflow fscope gscope hf.2.2.2 hg.2.2.2 hf.1 hg.1
+      hf.2.1 hg.2.1 hf.2.2.1 hg.2.2.1]
+    constructor
+    · intro ⟨a, b, c, d⟩; simp [a, b, c, d]
+    · intro h; cases h; exact ⟨rfl, rfl, rfl, rfl⟩
+
+theorem mapFind_insert {V : Type} (k k' : Image) (v : V) (m : List (Image × V)) :
+    mapFind k' (mapInsert k v m) = if k' = k then some v else mapFind k' m := by
+  induction m with
+  | nil =>
+    unfold mapInsert
+    by_cases hk : k' = k
+    · subst hk; simp [mapFind, lt_irrefl]
+    · simp only [hk, if_false]
+      rcases lt_total k' k with h | h | h
+      · simp [mapFind, h]
+      · exact absurd h hk
+      · simp [mapFind, h, lt_asymm _ _ h]
+  | cons hd rest ih =>
+    obtain ⟨k0, v0⟩ := hd
+    unfold mapInsert
+    by_cases h1 : lt k k0 = true
+    · simp only [h1, if_true]
+      by_cases hk : k' = k
+      · subst hk; simp [mapFind, lt_irrefl]
+      · simp only [hk, if_false]
+        rcases lt_total k' k with h | h | h
+        · have : lt k' k0 = true := lt_trans _ _ _ h h1
+          simp [mapFind, h, this]
+        · exact absurd h hk
+        · rw [mapFind_cons]
+          simp [h, lt_asymm _ _ h]
+    · by_cases h2 : lt k0 k = true
+      · simp only [h1, h2, if_true, Bool.false_eq_true, if_false]
+        by_cases h3 : lt k' k0 = true
+        · have hne : k' ≠ k := by
+            intro e; subst e
+            have := lt_asymm _ _ h3; rw [h2] at this; cases this
+          simp [mapFind, h3, hne]
+        · by_cases h4 : lt k0 k' = true
+          · rw [mapFind_cons, mapFind_cons]
+            simp only [h3, h4, if_true]
+            rw [ih]
+            simp
+          · have hk0 : k' = k0 := by
+              have := (eq_iff_not_lt_not_gt k' k0).mpr ⟨by simpa using h3, by simpa using h4⟩
+              exact (eq_iff k' k0).mp this
+            subst hk0
+            have hne : k' ≠ k := by
+              intro e; subst e; rw [lt_irrefl] at h2; cases h2
+            simp [mapFind, lt_irrefl, hne]
+      · have hk : k = k0 := by
+          have := (eq_iff_not_lt_not_gt k k0).mpr ⟨by simpa using h1, by simpa using h2⟩
+          exact (eq_iff k k0).mp this
+        subst hk
+        by_cases hk : k' = k
+        · subst hk; simp [mapFind, lt_irrefl]
+        · simp only [hk, if_false]
+          rcases lt_total k' k with h | h | h
+          · simp [mapFind, h, lt_irrefl]
+          · exact absurd h hk
+          · simp [mapFind, h, lt_asymm _ _ h, lt_irrefl]
+
+end SockModel.Addr.Lem
